@@ -1,9 +1,11 @@
 //! vcheck — model-checking harness for bytebeamio/rumqtt (see /verif/DESIGN.md).
+mod c19;
 mod e1;
 mod e2;
 mod e3_codec;
 mod e4_topicgrid;
 mod e5_commitlog;
+mod e6_fullstack;
 mod vcore;
 mod wire;
 
@@ -48,7 +50,7 @@ fn main() {
             "C15" => e1::run::run("C15", tier),
             "C16" => e1::run::run("C16", tier),
             "C17" => e1::run::run("C17", tier),
-            "C19" => e1::run::run("C19", tier),
+            "C19" => c19::run(tier),
             "C20" => e1::run::run("C20", tier),
             "C04" => e3_codec::run_c04(tier),
             "C05" => e3_codec::run_c05(tier),
@@ -77,6 +79,7 @@ fn replay(path: &str) -> i32 {
     let r = &doc["replay"];
     match r["engine"].as_str().unwrap_or("") {
         "e1_router" => e1::run::replay(r),
+        "e6_fullstack" => c19::replay(r),
         "e2_client" => e2::run::replay(r),
         "e3_codec" => e3_codec::replay(r),
         "e4_topicgrid" => e4_topicgrid::replay(r),
